@@ -9,6 +9,7 @@ import (
 	"encoding/json"
 	"errors"
 	"fmt"
+	"io"
 	"math/rand"
 	"os"
 	"strings"
@@ -75,6 +76,14 @@ func cases(run *vf.Run) ([]json.RawMessage, error) {
 	}
 	for i, m := range []string{"none", "PASSIVE"} {
 		out = append(out, vf.Spec(spec{Seed: 635 + int64(i), Levels: 1, Demo: "snapshot-after-offline-backfill", DemoMode: m, DemoNewObject: i == 1, DemoFailFirstSync: true,
+			Cfg: hist.Config{PageSize: []int{4096, 1024}[i], MinCheckpointPageN: 1000, TruncatePageN: 0, MaxSyncWALFrames: 0}}))
+	}
+	for i, m := range []string{"PASSIVE", "TRUNCATE", "RESTART"} {
+		out = append(out, vf.Spec(spec{Seed: 655 + int64(i), Levels: 1, Demo: "snapshot-after-request-scoped-checkpoint", DemoMode: m,
+			Cfg: hist.Config{PageSize: []int{4096, 1024, 8192}[i], MinCheckpointPageN: 1000, TruncatePageN: 0, MaxSyncWALFrames: 0}}))
+	}
+	for i := 0; i < 2; i++ {
+		out = append(out, vf.Spec(spec{Seed: 665 + int64(i), Levels: 1, Demo: "snapshot-stream-across-close",
 			Cfg: hist.Config{PageSize: []int{4096, 1024}[i], MinCheckpointPageN: 1000, TruncatePageN: 0, MaxSyncWALFrames: 0}}))
 	}
 	for i, kb := range []int{8, 12, 16, 24} {
@@ -247,6 +256,136 @@ func runCase(run *vf.Run, raw json.RawMessage, dir string) *vf.Result {
 				return res
 			}
 			if st.checkAll("demo-after-sync") {
+				return res
+			}
+		}
+	}
+	if s.Demo == "snapshot-after-request-scoped-checkpoint" {
+		// a litestream checkpoint issued with a request-scoped context (what a /sync request
+		// or a CLI command with a timeout does); the context is cancelled right after the
+		// call returned; the application commits and checkpoints PASSIVE; Snapshot before the
+		// next sync. The long-running read transaction re-started by that checkpoint must
+		// still pin the WAL.
+		for i := 0; i < 5; i++ {
+			if _, err := e.AppWriteKind("ins-multi"); err != nil {
+				return herr(err)
+			}
+		}
+		if !upload() {
+			res.HarnessErr = "demo: initial sync failed"
+			return res
+		}
+		cctx, cancel := context.WithCancel(ctx)
+		cerr := e.LS.Checkpoint(cctx, s.DemoMode)
+		cancel()
+		e.Logf("Checkpoint(%s) with a request-scoped context err=%v; context cancelled after the call returned", s.DemoMode, cerr)
+		time.Sleep(50 * time.Millisecond) // database/sql reacts to the cancellation asynchronously
+		if !upload() {
+			res.HarnessErr = "demo: sync after the checkpoint failed"
+			return res
+		}
+		e.ForceTable = 2
+		for i := 0; i < 3; i++ {
+			if _, err := e.AppWriteKind([]string{"ins-multi", "update", "ins-small"}[i]); err != nil {
+				return herr(err)
+			}
+		}
+		e.ForceTable = 0
+		e.AppCheckpoint("PASSIVE")
+		info, err := e.LS.Snapshot(ctx)
+		e.Logf("Snapshot before the next sync err=%v info=%+v", err, info)
+		if err == nil {
+			res.Count("snapshots", 1)
+		}
+		ops = append(ops, "demo-snapshot-after-request-scoped-checkpoint")
+		if st.checkAll("demo") {
+			return res
+		}
+		if upload() {
+			if st.checkAll("demo-after-sync") {
+				return res
+			}
+		}
+	}
+	if s.Demo == "snapshot-stream-across-close" {
+		// a snapshot stream with a slow consumer is in flight when litestream is closed
+		// (DisableDB, shutdown); Close waits for the stream; meanwhile the application commits
+		// and checkpoints PASSIVE; the rest of the stream is read. The stream must still be the
+		// state of its position.
+		for i := 0; i < 5; i++ {
+			if _, err := e.AppWriteKind("ins-multi"); err != nil {
+				return herr(err)
+			}
+		}
+		if !upload() {
+			res.HarnessErr = "demo: initial sync failed"
+			return res
+		}
+		if err := e.LS.Checkpoint(ctx, "TRUNCATE"); err != nil {
+			e.Logf("demo: checkpoint err=%v", err)
+		}
+		e.ForceTable = 1
+		if _, err := e.AppWriteKind("ins-small"); err != nil {
+			return herr(err)
+		}
+		if !upload() {
+			res.HarnessErr = "demo: second sync failed"
+			return res
+		}
+		pos, rc, err := e.LS.SnapshotReader(ctx)
+		if err != nil {
+			return herr(fmt.Errorf("demo: SnapshotReader: %w", err))
+		}
+		var buf bytes.Buffer
+		if _, err := io.CopyN(&buf, rc, 150); err != nil {
+			return herr(fmt.Errorf("demo: read stream head: %w", err))
+		}
+		done := make(chan error, 1)
+		go func() {
+			cctx, cancel := context.WithTimeout(ctx, 60*time.Second)
+			defer cancel()
+			done <- e.LS.Close(cctx)
+		}()
+		time.Sleep(150 * time.Millisecond) // Close is now waiting for the stream
+		e.ForceTable = 2
+		for i := 0; i < 3; i++ {
+			if _, err := e.AppWriteKind([]string{"ins-multi", "update", "ins-small"}[i]); err != nil {
+				return herr(err)
+			}
+		}
+		e.ForceTable = 0
+		e.AppCheckpoint("PASSIVE")
+		_, rerr := io.Copy(&buf, rc)
+		_ = rc.Close()
+		cerr := <-done
+		e.Logf("snapshot stream at TXID %d read across Close (stream err=%v, Close err=%v)", pos.TXID, rerr, cerr)
+		if rerr == nil {
+			res.Evals++
+			lf, derr := oracle.DecodeLTXReader(&buf)
+			if derr != nil {
+				res.Violate("snapshot-stream-invalid", "demo: snapshot stream read across Close does not decode/verify: %v", derr)
+				return res
+			}
+			if err := e.Arch.Scan(e.RepPath); err != nil {
+				res.Violate("l0-file-invalid", "%v", err)
+				return res
+			}
+			want, _, werr := e.Arch.Compose(1, int(pos.TXID))
+			if werr != nil {
+				return herr(werr)
+			}
+			if perr := oracle.EqualPages(lf, want); perr != nil {
+				res.Violate("snapshot-pages", "demo: the snapshot stream of position %d, read across a concurrent Close, differs from applying level-0 files 1..%d: %v", pos.TXID, pos.TXID, perr)
+				return res
+			}
+			res.Count("snapshot_streams_read_across_close", 1)
+		}
+		if err := e.StartLS(); err != nil {
+			return herr(fmt.Errorf("reopen: %w", err))
+		}
+		ops = append(ops, "demo-snapshot-stream-across-close")
+		if upload() {
+			if st.checkAll("demo-after-reopen") {
 				return res
 			}
 		}
